@@ -268,6 +268,13 @@ func (ipv6 *IPv6) DecodeFromBytes(data []byte, df gopacket.DecodeFeedback) error
 	}
 
 	pEnd := int(ipv6.Length)
+	if ipv6.HopByHop != nil {
+		// the length field counts the hop-by-hop header, which is no longer part of the payload
+		pEnd -= ipv6.hbh.ActualLength
+		if pEnd < 0 {
+			pEnd = 0
+		}
+	}
 	if pEnd > len(ipv6.Payload) {
 		df.SetTruncated()
 		pEnd = len(ipv6.Payload)
